@@ -27,6 +27,9 @@
 //   non-zero shares} x delta in {1, q-1, 42}; (7,2): every pair of colluding dealers with constant terms 1 and q-1.
 //   Such a dealer must not be qualified (cdkg.zvss/nonzero-dealer-qualified, zvss/constant-commitment) and the secret
 //   must stay 0 resp. unchanged with g^x = y (cdkg.zvss/secret-changed, cdkg.zvss/secret-vs-key, zvss/nonzero-secret).
+//   Every joint sharing (and the dealer of pvss as a control) additionally gets the dealer U that hands a wrong share to
+//   every victim set V, 1 <= |V| <= t, and then answers no complaint / not the first one / for a party that did not
+//   complain: it must end up disqualified everywhere or the victims must hold valid shares (key */unanswered-complaint).
 //   Schedules: round robin; thorough adds reverse round robin and a seeded pseudo-random baton order for (4,1), core menu.
 // Oracle (parent, GMP only; deviating parties are excluded, honest ones never; judged are the honest parties whose call
 //   returned true — if some honest party fails while another succeeds with a QUAL containing it, that is a violation,
@@ -60,6 +63,7 @@ struct GjkrProto : Proto {
 		return d[i]->Generate(au, rbc, err.s, sim);
 	}
 	std::vector<int> coin_layout(int) const override { return std::vector<int>(1, 1); }
+	int sharings() const override { return 1; }
 	void judge() override
 	{
 		std::vector<JView> views;
@@ -104,6 +108,7 @@ template<class T> struct CgRvssLike : Proto {
 	}
 	std::vector<int> coin_layout(int) const override { return std::vector<int>(1, 1); }
 	int zero_phase() const override { return zero ? 0 : -1; }
+	int sharings() const override { return 1; }
 	void own_z(JView &v, CanettiGennaroJareckiKrawczykRabinRVSS *o) { v.has_z = true, v.z = Mpz(o->z_i); }
 	void own_z(JView &, CanettiGennaroJareckiKrawczykRabinZVSS *) {}
 	void judge() override
@@ -141,6 +146,7 @@ struct JlProto : Proto {
 		return d[i]->Share(i, au, rbc, err.s, sim);
 	}
 	std::vector<int> coin_layout(int) const override { return std::vector<int>(1, 1); }
+	int sharings() const override { return 1; }
 	void judge() override
 	{
 		std::vector<JView> views;
@@ -179,6 +185,12 @@ struct CdkgProto : Proto {
 	std::vector<int> coin_layout(int) const override { std::vector<int> k; k.push_back(11), k.push_back(11); return k; }
 	bool rest_matters(int) const override { return true; }
 	int zero_phase() const override { return 1; }
+	// x_rvss, d_rvss (after the t+3 broadcasts of x_rvss and the four of step 2), and the zero sharing of Refresh
+	int sharings() const override { return 3; }
+	void sharing(int k, int &ph, int &uoff, int &boff) const override
+	{
+		ph = k == 2 ? 1 : 0, uoff = k == 1 ? 2 : 0, boff = k == 1 ? cfg.t + 7 : 0;
+	}
 	void view_of(int i, JView &v, int ph)
 	{
 		v.party = i, v.ret = W->ps[i].ret[ph] == 1;
@@ -368,6 +380,9 @@ struct PvssProto : Proto {
 		return k;
 	}
 	bool rest_matters(int party) const override { return party == cfg.dealer; }
+	int sharings() const override { return 1; }
+	bool deals(int party) const override { return party == cfg.dealer; }
+	bool answers_have_markers() const override { return false; }
 	void judge() override
 	{
 		std::vector<int> H = W->honest_list();
@@ -561,6 +576,28 @@ static void single_menu(const Cfg &c, int f, const Ref &ref, Proto &P, int level
 		for (int var = 0; var < 3; var++)
 			for (int dl = 0; dl < 3; dl++) out.push_back(Dev::mk('Z', var, dl));
 	int lowest_other = f == 0 ? 1 : 0;
+	// dealer that does not answer complaints: every sharing x every victim set V, 1 <= |V| <= t (n >= 6 at the mini
+	// level: the lowest one or two other parties only) x answer variant x which value of the pair is wrong
+	if (P.sharings() > 0 && P.deals(f))
+		for (int k = 0; k < P.sharings(); k++)
+			for (unsigned mask = 1; mask < (1u << c.n); mask++)
+			{
+				int sz = __builtin_popcount(mask);
+				if ((mask >> f) & 1 || sz > c.t) continue;
+				if (level == 0 && c.n >= 6)
+				{
+					unsigned low = 0;
+					int cnt = 0;
+					for (int x = 0; x < c.n && cnt < sz; x++) if (x != f) low |= 1u << x, cnt++;
+					if (mask != low) continue;
+				}
+				for (int variant = 0; variant < 3; variant++)
+				{
+					if (variant == 1 && sz < 2) continue;      // with one complaint "a strict subset" is "none"
+					for (int flavour = 1; flavour <= 2; flavour++)
+						if (flavour == 1 || level >= 2) out.push_back(Dev::mk('U', (int)mask, variant + 10 * k + 100 * flavour));
+				}
+			}
 	for (int r = 0; r < c.n; r++)
 	{
 		if (r == f || !ref.ucount[f][r]) continue;
@@ -646,6 +683,27 @@ static void finish_case(World &W, Proto &P, bool reference)
 		return;
 	}
 	P.judge();
+	// diagnosis -> specific key: in a run with a dealer that left complaints unanswered (U) the parties whose share
+	// does not match the commitments are exactly (some of) its victims
+	{
+		unsigned victims = 0;
+		std::string dealers;
+		for (int i = 0; i < W.cfg.n; i++)
+			if (W.ps[i].faulty && W.ps[i].dev.kind == 'U' && W.ps[i].fired) victims |= (unsigned)W.ps[i].dev.a, dealers += " " + str(i);
+		bool only_victims = victims != 0 && !W.bad_share.empty();
+		for (std::set<int>::iterator it = W.bad_share.begin(); it != W.bad_share.end(); ++it) if (!((victims >> *it) & 1)) only_victims = false;
+		if (only_victims)
+			for (size_t i = 0; i < W.viols.size(); i++)
+			{
+				const std::string suf = "/share-vs-commitments";
+				std::string &k = W.viols[i].key;
+				if (k.size() > suf.size() && k.compare(k.size() - suf.size(), suf.size(), suf) == 0)
+				{
+					k = k.substr(0, k.size() - suf.size()) + "/unanswered-complaint";
+					W.viols[i].what += "; cause: dealer" + dealers + " sent this party a wrong share, the party complained, the dealer did not publish a valid answer for it, and still every honest party keeps the dealer in QUAL: nobody checks that each complaint was answered";
+				}
+			}
+	}
 	for (size_t i = 0; i < W.viols.size(); i++)
 		R->viol(W.viols[i].key, W.viols[i].what + " [" + id + " seed=" + str(seed_of(W.cfg)) + " |p|=" + str(G.psize) + " |q|=" + str(G.qsize) + "]", id);
 	for (std::map<std::string, int>::iterator it = W.notes.begin(); it != W.notes.end(); ++it) R->counters["note." + it->first] += it->second;
